@@ -42,7 +42,14 @@ func (r *Run) Sum(name string, n int64) {
 // (VERIF_SHARD set) it runs body for that shard, writes the partial result and
 // exits. The set covered is the union over shards and is independent of the seed.
 func (r *Run) Sharded(n, procs int, body func(shard, n int)) {
+	r.mu.Lock()
+	r.stage++
+	stage := r.stage
+	r.mu.Unlock()
 	if sh := os.Getenv("VERIF_SHARD"); sh != "" {
+		if st, _ := strconv.Atoi(os.Getenv("VERIF_SHARD_STAGE")); st != stage {
+			return // this child belongs to another Sharded call of the same check
+		}
 		parts := strings.Split(sh, "/")
 		i, _ := strconv.Atoi(parts[0])
 		nn, _ := strconv.Atoi(parts[1])
@@ -88,6 +95,7 @@ func (r *Run) Sharded(n, procs int, body func(shard, n int)) {
 			cmd.Env = append(os.Environ(),
 				fmt.Sprintf("VERIF_SHARD=%d/%d", (i+r.Seed)%n, n),
 				fmt.Sprintf("VERIF_SHARD_OUT=%s/%d.json", dir, i),
+				fmt.Sprintf("VERIF_SHARD_STAGE=%d", stage),
 				fmt.Sprintf("GOMAXPROCS=%d", procs))
 			cmd.Stdout = os.Stderr
 			cmd.Stderr = os.Stderr
